@@ -163,7 +163,7 @@ def run_case(case):
            "plan": [int(x) for x in m.groups()] if m else [-1, -1, -1],
            "sent": int(dn.group(1)) if dn else 0, "failed": int(dn.group(4)) if dn else 0,
            "second": {"ran": False, "transfer": -1, "delete": -1, "unchanged": True, "exit": 0},
-           "printed_send": [], "printed_delete": [], "induced": case.get("induced", ""),
+           "printed_send": [], "printed_delete": [], "induced": case.get("induced", ""), "unsendable": case.get("induced") == "unsendable",
            "stderr": p.stderr.decode("utf8", "replace")[-300:] if p.returncode else ""}
     if dry:
         after = _snapshot([_W["src"], _W["dst"]])
@@ -173,9 +173,10 @@ def run_case(case):
         text = p.stdout.decode("utf8", "replace")
         # names may contain newlines: match printed lines against the known names
         for n, i in idx.items():
-            if ("send   " + n + "\n") in text:
+            shown = os.fsencode(n).decode("utf8", "replace")          # a name that is not UTF-8 is printed with U+FFFD
+            if ("send   " + shown + "\n") in text:
                 rec["printed_send"].append(i)
-            if ("delete " + n + "\n") in text:
+            if ("delete " + shown + "\n") in text:
                 rec["printed_delete"].append(i)
         rec["printed_send"].sort()
         rec["printed_delete"].sort()
@@ -203,7 +204,7 @@ def run_cases(copia, shimdir, root, cases, seed, nproc=16):
 NAME_POOL = ["plain", "with space", "quote'single", 'dq"uote', "back\\slash", "dollar$HOME", "glob*star", "q?mark", "[bracket]",
              "new\nline", "-leading-dash", "ünïcödé", "ナメ", ".hidden", "tab\there", "semi;colon", "amp&ersand",
              "pipe|x", "`backtick`", "$(subshell)", "trailing.", " leadingspace", "a.b", "x~y", "per%cent", "#hash", "e=mc2", "{brace}",
-             "two\n\nlines", "\\n-literal", "'", "\"", "*", "?"]
+             "two\n\nlines", "\\n-literal", "'", "\"", "*", "?", "raw\udcff.bin"]      # the last one is the byte string b'raw\xff.bin' (not UTF-8)
 DIR_POOL = ["", "", "d", "deep/er/nest", "dir with space", "d'q", "new\nline dir", "-dashdir", "g*lob"]
 
 
@@ -292,7 +293,15 @@ def random_cases(n, seed, dirs=("local", "push", "pull")):
             stale_dir = False
         case = {"id": f"r{seed}-{k}", "names": names, "secs": secs, "src": src, "dst": dst, "pats": pats, "del": rng.random() < (0.85 if stale_dir else 0.5),
                 "dry": rng.random() < 0.2, "dir": rng.choice(dirs), "jobs": rng.choice([1, 2, 8]), "verbose": rng.random() < 0.3}
-        if clash:
+        # the name that is not UTF-8: never as a pattern (clap refuses such an argument), and not on the REMOTE destination
+        # (its listing is text; C19 promises the round trip for valid UTF-8 only)
+        case["pats"] = [p for p in case["pats"] if "\udcff" not in p]
+        if case["dir"] == "push":
+            case["dst"] = [[] if "\udcff" in n else m for n, m in zip(names, dst)]
+        if case["dir"] != "local" and any("\udcff" in n and m for n, m in zip(names, src)):
+            # a remote command cannot name it: the run has to report that file as failed (and deliver nothing under another name)
+            case["induced"] = "unsendable"
+        elif clash:
             case["induced"] = "clash"
         elif case["dir"] != "pull" and rng.random() < 0.12:
             # a source entry that is a symlink to a regular file (the remote listing `find -type f` does not show links,
